@@ -392,6 +392,7 @@ type c05variant struct {
 	snapshotEntries uint64
 	bigBefore       int  // puts of 4000-byte values before the follower starts: responses larger than the proposal size
 	readerAhead     bool // another follower has already read the leader's log (the leader's log cache is ahead), then the leader moved on
+	stallApply      bool // the follower's apply path stalls once for longer than the worker's proposal deadline: the proposal times out at the worker and commits all the same
 }
 
 func runC05Scenario(rf *runFlags, rnd *rand.Rand, sum *Summary, cf *CasesFile, v c05variant, caseNo int) error {
@@ -406,7 +407,19 @@ func runC05Scenario(rf *runFlags, rnd *rand.Rand, sum *Summary, cf *CasesFile, v
 	queue := storage.NewNotificationQueue()
 	go queue.Run()
 	defer func() { _ = queue.Close() }()
-	if sys.follower, err = newC05Node(fmt.Sprintf("follower%d", caseNo), 0, 0, 0, queue.Notify); err != nil {
+	var stallArmed atomic.Bool
+	listener := queue.Notify
+	if v.stallApply {
+		sys.repCfg.Workers.LogRPCTimeout = 700 * time.Millisecond
+		listener = func(table string, rev uint64) {
+			if table == "t" && stallArmed.CompareAndSwap(true, false) {
+				sum.hist("stalls").Inc("apply path stalled for 1.6 s (proposal deadline 0.7 s)")
+				time.Sleep(1600 * time.Millisecond)
+			}
+			queue.Notify(table, rev)
+		}
+	}
+	if sys.follower, err = newC05Node(fmt.Sprintf("follower%d", caseNo), 0, 0, 0, listener); err != nil {
 		return err
 	}
 	sys.queue = queue
@@ -579,6 +592,15 @@ func runC05Scenario(rf *runFlags, rnd *rand.Rand, sum *Summary, cf *CasesFile, v
 	half := v.writesDuring / 2
 	if err := write(half); err != nil {
 		return err
+	}
+	if v.stallApply {
+		// the next batch the follower applies stalls; the leader keeps writing meanwhile
+		stallArmed.Store(true)
+		pace = 40 * time.Millisecond
+		if err := write(45); err != nil {
+			return err
+		}
+		pace = 0
 	}
 	if v.restartFollower {
 		sys.mgr.Close()
@@ -1196,6 +1218,7 @@ func runC05(args []string) error {
 		{name: "follower engine restart", writesBefore: 10, writesDuring: 50, restartFollower: true},
 		{name: "small message size limit, another reader ahead of the follower (leader log cache)", writesBefore: 40, writesDuring: 20, maxMsg: 1500, lateFollower: true, readerAhead: true},
 		{name: "large backlog (responses cut into several proposals)", lateFollower: true, writesBefore: 5, bigBefore: 200, writesDuring: 10},
+		{name: "stalled apply (a proposal outlives the worker's deadline and commits all the same)", writesBefore: 10, writesDuring: 20, stallApply: true},
 	}
 	rounds := 1
 	if rf.Tier == "thorough" {
